@@ -1,1 +1,94 @@
-From CV Require Import Model.M_reader.
+(** C05 - the request-body stream is exact, ordered and bounded.
+    Property theorems only; each is closed by [exact] of a lemma from Proof/. *)
+From Coq Require Import ZArith List Bool.
+From CV Require Import Lib.Sx Lib.ListZ Model.M_reader Proof.P_reader Proof.P_reader_thm.
+Import ListNotations.
+Open Scope Z_scope.
+
+(** Every status of every operation list is OK or 413 (no fuel exhaustion, no
+    other failure), a 413 ends the run. *)
+Theorem c05_statuses : forall c body fr ops outs s,
+  WF c -> forallb op_nonneg ops = true ->
+  run c ops (init body fr) = (outs, s) ->
+  all_ok outs \/ exists pre last, outs = pre ++ [(S413, last)] /\ all_ok pre.
+Proof. exact thm_statuses. Qed.
+Print Assumptions c05_statuses.
+
+(** Exact and ordered: what any interleaving of read/readline/readlines/next
+    returned so far is a prefix of the (length-limited) body ... *)
+Theorem c05_exact_ordered : forall c body fr ops outs s,
+  WF c -> forallb op_nonneg ops = true ->
+  run c ops (init body fr) = (outs, s) -> all_ok outs ->
+  exists rest, delivered outs ++ rest = body_eff c body.
+Proof. exact thm_exact_ordered. Qed.
+Print Assumptions c05_exact_ordered.
+
+(** ... and is the whole body once an unbounded read() has returned. *)
+Theorem c05_complete : forall c body fr ops outs s st ou s',
+  WF c -> forallb op_nonneg ops = true ->
+  run c ops (init body fr) = (outs, s) -> all_ok outs ->
+  step c (ORead None) s = (st, ou, s') -> st = SOk ->
+  delivered outs ++ out_bytes ou = body_eff c body.
+Proof. exact thm_complete. Qed.
+Print Assumptions c05_complete.
+
+(** read(n) is the exact slice at the cursor: min(n, remaining) bytes, for
+    every fragmentation of the socket and every buffer size. *)
+Theorem c05_read_refines : forall c body fr ops outs s size data s',
+  WF c -> forallb op_nonneg ops = true ->
+  run c ops (init body fr) = (outs, s) -> all_ok outs ->
+  neg_size size = false ->
+  read c size s = (SOk, data, s') ->
+  data = takeR (read_rem c size s) (dropZ (lenZ (delivered outs)) body)
+  /\ bread s = lenZ (delivered outs).
+Proof. exact thm_read_refines. Qed.
+Print Assumptions c05_read_refines.
+
+(** Bounded: never more than Content-Length is taken from the connection,
+    whatever happens (including a run that ends in 413). *)
+Theorem c05_no_overread : forall c body fr ops outs s cl,
+  WF c -> forallb op_nonneg ops = true ->
+  run c ops (init body fr) = (outs, s) ->
+  c_len c = Some cl -> taken s <= cl.
+Proof. exact thm_no_overread. Qed.
+Print Assumptions c05_no_overread.
+
+(** maxbytes: the application never receives more than the limit (bytes written
+    to fp_out before a 413 included) ... *)
+Theorem c05_maxbytes : forall c body fr ops outs s,
+  WF c -> forallb op_nonneg ops = true ->
+  run c ops (init body fr) = (outs, s) ->
+  0 < c_maxb c -> lenZ (delivered outs) <= c_maxb c.
+Proof. exact thm_maxbytes. Qed.
+Print Assumptions c05_maxbytes.
+
+(** ... a 413 is only raised for a body that really exceeds the limit ... *)
+Theorem c05_413_justified : forall c body fr ops outs s last,
+  WF c -> forallb op_nonneg ops = true ->
+  run c ops (init body fr) = (outs, s) ->
+  In (S413, last) outs -> 0 < c_maxb c /\ c_maxb c < lenZ (body_eff c body).
+Proof. exact thm_413_justified. Qed.
+Print Assumptions c05_413_justified.
+
+(** ... and a longer body cannot be read to the end without it. *)
+Theorem c05_too_long_refused : forall c body fr ops outs s st ou s',
+  WF c -> forallb op_nonneg ops = true ->
+  run c ops (init body fr) = (outs, s) -> all_ok outs ->
+  0 < c_maxb c -> c_maxb c < lenZ (body_eff c body) ->
+  step c (ORead None) s = (st, ou, s') -> st = S413.
+Proof. exact thm_too_long_refused. Qed.
+Print Assumptions c05_too_long_refused.
+
+(** Non-vacuity: a well-formed configuration and a run that exercises the
+    push-back path (readline; readline(5); read() on "abc\ndef\nghi", buffer 8,
+    1-byte socket fragments). *)
+Example c05_nonvacuous :
+  let c := Cfg (Some 11) 0 8 true in
+  WF c /\
+  exists outs s,
+    run c [OReadline None; OReadline (Some 5); ORead None]
+        (init [97;98;99;10;100;101;102;10;103;104;105] [1;1;3]) = (outs, s)
+    /\ all_ok outs /\ delivered outs = [97;98;99;10;100;101;102;10;103;104;105]
+    /\ length outs = 3%nat.
+Proof. exact ex_nonvacuous. Qed.
+Print Assumptions c05_nonvacuous.
